@@ -4,10 +4,12 @@ import importlib
 from vlib import core
 
 C01 = importlib.import_module('harness.C01')
+EXT = importlib.import_module('harness.c04_ext')
 
 PROP = 'C04'
-MODEL_MODULES = ['TenpyModel.Util.J', 'TenpyModel.Core.ArrCodec']
-PROPS_MODULES = ['TenpyModel.C04.Props', 'TenpyModel.C04.Props2']
+MODEL_MODULES = ['TenpyModel.Util.J', 'TenpyModel.Core.ArrCodec', 'TenpyModel.C04.ExtKernels', 'TenpyModel.C04.ExtSelect']
+PROPS_MODULES = ['TenpyModel.C04.Props', 'TenpyModel.C04.Props2', 'TenpyModel.C04.PropsExtKernels',
+                 'TenpyModel.C04.PropsExtCopy', 'TenpyModel.C04.PropsExtSelect']
 LEVEL = 'proof'
 BUDGET = {'quick': 175, 'thorough': 1700}
 RULE = ('the C01 program stream (random typed programs over the public tensor operations, all charge structures, '
@@ -20,7 +22,15 @@ RULE = ('the C01 program stream (random typed programs over the public tensor op
         'differ only where both variants of the Lean model (kernel parameter; only iadd_prefactor_other) predict exactly '
         'that divergence. '
         'Each configuration is additionally diffed against the Lean model Arr (refinement). dtype differences are '
-        'recorded, not judged. Non-trivial: as C01.')
+        'recorded, not judged. Non-trivial: as C01. '
+        'Extension part (harness/c04_ext.py, 900 quick / 9000 thorough cases from sub_rng("ext"), run first): the paired helpers called '
+        'DIRECTLY under both configurations — ChargeInfo.make_valid (None / 0-d / 1-d / 2-d / 3-d+ arguments, wrong last dimension, '
+        'int64 extremes, also through npc.zeros(qtotal=...)), check_valid, _find_row_differences, _map_blocks, _make_stride, _sliced_copy '
+        '(1-7 dimensions, five dtypes = five item widths, offsets or None, empty slices; 0-d off-contract) — and tools.optimization '
+        '(programs of set_level / temporary_level / exceptions; sessions of use_cython decorations over synthetic module tables, '
+        'TENPY_NO_CYTHON spellings, import failure, stale doc strings; the sixteen real pairs as selected at import). Verdict per case: cy == py, '
+        'both == the documented value (independent numpy / plain-Python oracle), each twin == its coded form in the Lean model '
+        '(TenpyModel.C04.Ext*: `...Cy` / `...Py`), and == the Core closed form.')
 TRUSTED = ['Lean 4.33 kernel; axioms of the C04_* theorems ⊆ {propext, Classical.choice, Quot.sound}',
            'vlib/cybuild.py builds the compiled module from the current sources of the tree under test',
            'model lean/TenpyModel/Core/Arr*.lean tied to both kernels by this run; serialiser vlib/arrio.py']
@@ -130,12 +140,19 @@ def summary(v):
 
 
 def run(ctx):
-    return C01.shrink(ctx, C01.run_stream(ctx, judge=judge_c04, prop=PROP), judge_c04)
+    # extension part first (one batch, ~10-20 s in the quick tier); the program stream then uses what is left of its share
+    res = EXT.run_ext(ctx)
+    res.merge(C01.shrink(ctx, C01.run_stream(ctx, judge=judge_c04, prop=PROP), judge_c04))
+    return res
 
 
 def search(ctx, reasons):
-    return C01.run_stream(ctx, judge=judge_c04, prop=PROP, tag='search', use_model=False, frac=0.95)
+    res = EXT.run_ext(ctx, use_model=False, tag='ext-search', n=4000 if ctx.quick else 20000)
+    res.merge(C01.run_stream(ctx, judge=judge_c04, prop=PROP, tag='search', use_model=False, frac=0.95))
+    return res
 
 
 def replay(ctx, payload):
+    if EXT.is_ext_case(payload['case']):
+        return EXT.evaluate(ctx, [payload['case']])
     return C01.evaluate(ctx, [payload['case']], judge=judge_c04)
